@@ -245,6 +245,8 @@ var gffTokens = []token{
 	{"seq\tsrc\tfeat\t1\t5\t.\t+", "missing frame column"},
 	{"seq\tsrc\tfeat\t1\t5\t.", "missing columns"},
 	{"seq\tsrc\tfeat\t1\t5\t.\t+\t.\tID x\tcomment text", ""},
+	{"seq\tsrc\tfeat\t1\t5\t.\t+\t.\t; gene_id \"a\"; gene_id \"b\"", ""}, // an empty entry, then a tag that occurs twice
+	{"seq\tsrc\tfeat\t1\t5\t.\t+\t.\tNote a; Note b;; Note a", ""},
 	{"seq\tsrc\tfeat\t0\t5\t.\t+\t.", "start of zero"},
 	{"seq\tsrc\tfeat\t-1\t5\t.\t+\t.", ""},
 	{"seq\tsrc\tfeat\t1\t5\t.\tx\t.", "bad strand"},
